@@ -88,6 +88,21 @@ JUNK = ["<input type=hidden>", "<input type=HIDDEN>", "<p><b></p></b>", "<table>
 
 
 
+def long_docs():
+    """A few LONG documents (thousands of tokens when walked): block-wise buffering, caches that fill up and counters are only
+    exercised by inputs of this size; nothing any property states depends on how much came before."""
+    return [
+        "<p a=1 b=2>x</p>" * 700,
+        "<ul>" + "<li>i <b>b</b> </li>" * 420 + "</ul>",
+        "<table>" + "<tr><td>c</td><th> h </th></tr>\n" * 300 + "</table>",
+        "<pre>" + " x  y\n" * 400 + "</pre>" + "<p> a   b\t\n c </p>" * 350 + "<textarea>\n q  r</textarea>",
+        "".join("<a href='%s:x' style='color: red; position: fixed' title=t onclick=x id=i%d>l</a><!--c--><script>s</script> " % (("http", "javascript", "data", "HTTPS")[i % 4], i) for i in range(330)),
+        "<svg>" + "<g xlink:href='#a' xml:lang=en><circle r=1 /></g>" * 400 + "</svg>" + "<math><mi xlink:href=x>m</mi></math>" * 100,
+        "<select>" + "<option>o<optgroup label=l>" * 400 + "</select>" + "<dl>" + "<dt>t<dd>d" * 400 + "</dl>",
+        "x" * 1100 + "<b>" + " y" * 2000 + "</b>" + "&amp;" * 1200,
+    ]
+
+
 class Dec(object):
     """Decode structured choices from a byte string (data-provider style, shared by the Hypothesis
     strategies and the atheris fuzz targets).  Exhausted input yields zeros."""
